@@ -136,11 +136,12 @@ pub struct Verdict {
 pub fn judge(prop: &str, line: &str, imp: &str, m: &str, s: &str) -> Verdict {
     let r = Req::parse(line);
     let mode = Mode::of(crate::types::out_type(&r));
+    let tols = crate::catalog::cond_tols(&r);
     let eq = |a: &str, b: &str| -> bool {
         if b == "-" {
             return true;
         }
-        props::compare(prop, &r, a, b).unwrap_or_else(|| line_eq(a, b, mode))
+        props::compare(prop, &r, a, b).unwrap_or_else(|| crate::cmp::line_eq_tols(a, b, mode, tols.as_deref()))
     };
     Verdict {
         impl_model: eq(imp, m),
